@@ -1,6 +1,7 @@
 """C19: complete enumeration of the finite input domain (every built-in class x year 1970..2099 x month), with run-time
 contracts evaluated on the real objects and an independent weekday oracle (datetime.date.weekday)."""
 from .common import *
+from datetime import timedelta
 import datetime as _dt
 import calendar as _cal
 from tradingenv import contracts as C
@@ -74,11 +75,21 @@ def check_chain(name, start, end):
             out.append(("unique_symbols_within_a_century", {"class": name, "symbol": key}))
             break
         seen[key] = c.expiry.year
-    evs = ch.make_events()
-    stamps = sorted((e.time, e.contract.symbol) for e in evs)
     want = sorted((c.expiry, c.symbol) for c in cs)
-    if stamps != want or len(evs) != len(cs):
-        out.append(("one_discontinuation_per_contract", {"class": name, "start": start, "end": end, "events": len(evs), "contracts": len(cs)}))
+    # the events a chain schedules do not depend on where the process-wide simulation clock happens to stand (an earlier episode
+    # or another environment may have advanced it): before the chain, inside it, after it
+    saved = C.AbstractContract.now
+    try:
+        for clock in (saved, cs[0].expiry - timedelta(days=400), cs[len(cs) // 2].expiry + timedelta(days=1), cs[-1].expiry + timedelta(days=400)):
+            C.AbstractContract.now = clock
+            evs = ch.make_events()
+            stamps = sorted((e.time, e.contract.symbol) for e in evs)
+            if stamps != want or len(evs) != len(cs):
+                out.append(("one_discontinuation_per_contract", {"class": name, "start": start, "end": end, "events": len(evs), "contracts": len(cs),
+                                                                  "process_clock": str(clock)}))
+                break
+    finally:
+        C.AbstractContract.now = saved
     if ch._last_trading_dates != [c.last_trading_date for c in cs]:
         out.append(("ltd_index_matches", {"class": name, "start": start, "end": end}))
     return out, len(cs)
